@@ -22,6 +22,9 @@ struct Evals {
     pt: Vec<Vec<f32>>,
     sl: Vec<Vec<f32>>,
     err: Option<String>,
+    /// a many-point call far longer than any internal block: (samples requested, samples returned per output,
+    /// samples that differ from the short call's result for the same inputs)
+    long: Option<(usize, Vec<usize>, usize)>,
 }
 
 fn eval_all<const N: usize>(data: VmData<N>, nvars: usize, pts: &[Vec<f32>]) -> Evals {
@@ -64,7 +67,34 @@ fn eval_all<const N: usize>(data: VmData<N>, nvars: usize, pts: &[Vec<f32>]) -> 
         Ok(Err(e)) => err = Some(format!("slice: {e}")),
         Err(m) => err = Some(format!("slice panic: {m}")),
     }
-    Evals { ins: pts.to_vec(), pt, sl, err }
+    // every 16th tape: one many-point call over 1024 .. 4099 samples (the points repeated cyclically); sample k must
+    // be, bit for bit, what the short call returned for the same inputs
+    static CALLS: std::sync::atomic::AtomicUsize = std::sync::atomic::AtomicUsize::new(0);
+    let call = CALLS.fetch_add(1, std::sync::atomic::Ordering::Relaxed);
+    let mut long = None;
+    if call % 16 == 0 && nvars > 0 && !pts.is_empty() && err.is_none() {
+        let len = [1025usize, 4099, 1024, 2049][(call / 16) % 4];
+        let lcols: Vec<Vec<f32>> = (0..nvars).map(|v| (0..len).map(|k| pts[k % pts.len()][v]).collect()).collect();
+        let mut le = GenericVmFunction::<N>::new_float_slice_eval();
+        match vharness::catch(std::panic::AssertUnwindSafe(|| {
+            le.eval(&tape, &lcols).map(|o| (0..o.len()).map(|i| o[i].to_vec()).collect::<Vec<_>>())
+        })) {
+            Ok(Ok(o)) => {
+                let lens: Vec<usize> = o.iter().map(|c| c.len()).collect();
+                let mut bad = 0;
+                for (i, col) in o.iter().enumerate() {
+                    for (k, v) in col.iter().enumerate() {
+                        let want = sl[k % pts.len()].get(i).copied();
+                        if !matches!(want, Some(w) if w.to_bits() == v.to_bits() || (w.is_nan() && v.is_nan())) { bad += 1; }
+                    }
+                }
+                long = Some((len, lens, bad));
+            }
+            Ok(Err(e)) => err = Some(format!("long slice: {e}")),
+            Err(m) => err = Some(format!("long slice panic: {m}")),
+        }
+    }
+    Evals { ins: pts.to_vec(), pt, sl, err, long }
 }
 
 fn compile_and_eval<const N: usize>(p: &Prog, pts: &[Vec<f32>]) -> Result<(TapeRec, Evals), String> {
@@ -144,6 +174,9 @@ fn emit(
             j["panic"] = json!(false);
             j["err"] = json!(ev.err.clone().unwrap_or_default());
             j["evals"] = json!(evals);
+            if let Some((len, lens, bad)) = &ev.long {
+                j["long"] = json!({"len": len, "lens": lens, "bad": bad});
+            }
             writeln!(w, "{j}").unwrap();
         }
     }
@@ -359,6 +392,50 @@ fn main() {
         };
         emit(&mut w, id, "ctx", n, res, &cref, Mode::All, None);
         id += 1;
+    }
+    // (c2) every binary operator with a constant on either side, through the public Context API (flattening chooses
+    // the immediate forms): constants at and next to powers of two (normal, subnormal, the largest), the boundary pool,
+    // the specials; inputs from the boundary pool and at random
+    {
+        let mut consts: Vec<f32> = vec![];
+        for e in [-149i32, -140, -128, -127, -126, -24, -3, -2, -1, 0, 1, 2, 4, 10, 23, 24, 64, 126, 127] {
+            let b = if e >= -126 { f32::from_bits(((e + 127) as u32) << 23) } else { f32::from_bits(1u32 << (e + 149)) };
+            for d in [-3i32, -1, 0, 1, 3] {
+                let v = f32::from_bits((b.to_bits() as i32 + d).max(1) as u32);
+                consts.push(v);
+                consts.push(-v);
+            }
+        }
+        consts.extend_from_slice(&pgen::BOUNDARY);
+        consts.extend_from_slice(&SPECIALS);
+        consts.extend_from_slice(&[0.1, 1.0 / 3.0, 10.0, 100.0, 1.0e-3, 7.0]);
+        let stride = if quick { 5 } else { 1 };
+        for (ci, c) in consts.iter().enumerate() {
+            for op in 0..12usize {
+                if (ci + op) % stride != 0 && !(op == 3 || op == 2) { continue; }   // mul and div: every constant, also in the quick tier
+                for side in 0..2 {
+                    let mut ctx = Context::new();
+                    let x = ctx.x();
+                    let y = ctx.y();
+                    let k = ctx.constant(*c);
+                    let t = if side == 0 { ctx_bin(&mut ctx, op, x, k) } else { ctx_bin(&mut ctx, op, k, x) };
+                    // a second use next to another variable keeps the constant form under register pressure
+                    let u = ctx_bin(&mut ctx, [0, 5, 2][ci % 3], t, y);
+                    let roots = vec![t, u];
+                    let mut pts = pgen::input_points(&mut rng, Mode::Boundary, 3, 6);
+                    pts.extend(pgen::input_points(&mut rng, Mode::All, 3, 6));
+                    for q in 0..4 { pts.push(vec![rng.range(-10.0, 10.0), rng.range(-2.0, 2.0), 0.0]); let _ = q; }
+                    let n = [255usize, 3][(ci + op) % 2];
+                    let res = with_n!(n, ctx_compile_and_eval(&ctx, &roots, &pts));
+                    let cref = |_rec: &TapeRec, p: &[f32]| -> Vec<f32> {
+                        let vars: HashMap<Var, f32> = [(Var::X, p[0]), (Var::Y, p[1]), (Var::Z, p[2])].into_iter().collect();
+                        roots.iter().map(|r| ctx.eval(*r, &vars).unwrap()).collect()
+                    };
+                    emit(&mut w, id, "ctx", n, res, &cref, Mode::All, None);
+                    id += 1;
+                }
+            }
+        }
     }
     // (d) every DAG of the Flatten.tla bound through the real Context and SsaTape::new, with the tape the model predicts
     if let Some(path) = args.get(4) {
